@@ -75,6 +75,7 @@
 //#undef FFSM2_CHECKED
 #undef FFSM2_ASSERT
 #undef FFSM2_ASSERT_OR
+#undef FFSM2_VERIF_INDEX
 
 // - - - - - - - - - - - - - - - - - - - - - - - - - - - - - - - - - - - - - - -
 ////////////////////////////////////////////////////////////////////////////////
